@@ -17,6 +17,8 @@ NOT_DECIDED = "ShareFinder, Share state machine, more than 4 shares / 2 servers.
 def extra_checks(rep, tier):
     C46.fetcher_check(rep, tier, "C03")
     C46.small_state_checks(rep, "C03")
+    from contracts import immutable_grid
+    immutable_grid.grid_check(rep, tier, "C03")
 
 
 def contracts(tier):
